@@ -35,7 +35,8 @@ def seed_fonts(tier):
     n = SEED_FONTS_QUICK if tier == 'quick' else 40
     # spread over the generated fonts (different Silf / Glat versions)
     step = max(1, len(fs) // n)
-    out = zs[:2 if tier == 'quick' else 8] + ffs[:3 if tier == 'quick' else 10] + fs[::step][:n]
+    ffs.sort(key=os.path.getsize)
+    out = zs[:2 if tier == 'quick' else 8] + (ffs[:2] + ffs[-1:] if tier == 'quick' else ffs[:10]) + fs[::step][:n]      # two small ones and the one with most features
     out += [os.path.join(REPO, 'tests', 'fonts', 'small.ttf'), os.path.join(REPO, 'tests', 'fonts', 'tiny.ttf')]
     return out
 
